@@ -7,7 +7,7 @@ use crate::types::{attr_split, extract_urlref, strp, AttrMap, ClassList, ElRef};
 use crate::TransformConfig;
 
 use std::cell::RefCell;
-use std::collections::HashMap;
+use std::collections::{HashMap, HashSet};
 use std::time::{SystemTime, UNIX_EPOCH};
 
 use rand::prelude::*;
@@ -101,6 +101,9 @@ pub struct TransformerContext {
     elem_map: HashMap<String, SvgElement>,
     /// Original state of given element; used for `reuse` elements
     original_map: HashMap<String, SvgElement>,
+    /// ids registered ahead of their element being evaluated (or while it awaits
+    /// a retry); these can't be referenced yet.
+    pending_ids: HashSet<String>,
     /// Stack of elements which have been started but not yet ended
     ///
     /// Note empty elements are normally not pushed onto the stack,
@@ -132,6 +135,7 @@ impl Default for TransformerContext {
         Self {
             elem_map: HashMap::new(),
             original_map: HashMap::new(),
+            pending_ids: HashSet::new(),
             element_stack: Vec::new(),
             prev_element: None,
             scope_stack: Vec::new(),
@@ -162,6 +166,9 @@ pub trait ContextView: ElementMap + VariableMap {}
 impl ElementMap for TransformerContext {
     fn get_element(&self, elref: &ElRef) -> Option<&SvgElement> {
         match elref {
+            // An element which has not been (successfully) evaluated yet is not
+            // referencable: its attributes are still unresolved.
+            ElRef::Id(id) if self.pending_ids.contains(id) => None,
             ElRef::Id(id) => self.elem_map.get(id),
             ElRef::Prev => self.prev_element.as_ref(),
         }
@@ -440,9 +447,25 @@ impl TransformerContext {
         crate::verif::sched_point("update_element");
         if let Some(id) = el.get_attr("id") {
             let id = eval_attr(&id, self).unwrap_or(id);
+            self.pending_ids.remove(&id);
             if self.elem_map.insert(id.clone(), el.clone()).is_none() {
                 self.original_map.insert(id, el.clone());
             }
         }
+    }
+
+    /// Register an element ahead of its evaluation, so it is available as a `reuse`
+    /// target, but not (yet) as the target of a reference. Returns the id used.
+    pub fn register_pending(&mut self, el: &SvgElement) -> Option<String> {
+        let id = el.get_attr("id")?;
+        let id = eval_attr(&id, self).unwrap_or(id);
+        self.update_element(el);
+        self.pending_ids.insert(id.clone());
+        Some(id)
+    }
+
+    /// The element registered under `id` has been evaluated.
+    pub fn clear_pending(&mut self, id: &str) {
+        self.pending_ids.remove(id);
     }
 }
